@@ -95,6 +95,7 @@ struct Totals {
   std::unordered_map<std::string, uint64_t> oom_sites;
   std::unordered_set<uint64_t> nontrivial, sched_hashes;
   uint64_t runs_by_locale[3] = {0, 0, 0};
+  uint64_t runs_caller_tloc = 0;   // runs in which at least one task ran under its own uselocale() object
   std::map<std::string, uint64_t> per_batchkind;
 } TT;
 
@@ -331,9 +332,12 @@ static void run_single_task(const Plan& p, ExecHooks hooks) {
   Exec ex;
   ex.task = 0;
   ex.hooks = hooks;
-  if (!p.tasks.empty())
+  if (!p.tasks.empty()) {
+    caller_locale_install(p.tasks[0].tloc);
     for (auto& op : p.tasks[0].ops) ex.run_op(op);
+  }
   ex.release_all();
+  caller_locale_remove();
   std::vector<Exec*> v{&ex};
   op_begin(0, -1, OK_FREE, "(end of run)");
   final_leak_check(v, hooks.leak_scope);
@@ -356,8 +360,10 @@ static void run_threads(const Plan& p) {
   std::vector<std::function<void()>> bodies;
   for (int t = 0; t < n; t++)
     bodies.push_back([&, t]() {
+      caller_locale_install(p.tasks[t].tloc);
       for (auto& op : p.tasks[t].ops) ex[t]->run_op(op);
       ex[t]->release_all();
+      caller_locale_remove();
     });
   if (p.sched.policy == SP_SERIAL) {
     TaskCtx ctx[MAXTASK];
@@ -423,6 +429,16 @@ static void child_run(const Plan& p) {
 // ------------------------------------------------------------------ plan generation per engine/batch
 static uint64_t tag_of(const std::string& s) { return hash_str(s.c_str()); }
 
+// the caller's own thread locale: most programs never call uselocale(); those that do hand the library a thread whose
+// locale is an object the library does not own.  Only combinations that equal a process configuration (eff_locale).
+static int pick_tloc(uint64_t runseed, int task, int locale, bool allow_xx) {
+  uint64_t x = splitmix64(runseed ^ hash_str("tloc") ^ (uint64_t)(task + 1) * 0x9e3779b97f4a7c15ull);
+  if (x % 100 >= 30) return TLOC_NONE;
+  int k = (int)((x >> 8) % 3);
+  if (k == 0) return TLOC_DUP;
+  if (k == 1) return TLOC_C;
+  return allow_xx && locale != LOC_CUTF8 ? TLOC_XX : TLOC_DUP;
+}
 static int pick_locale(Rng& r, bool allow_xx) {
   int c = r.range(0, 99);
   if (c < 50) return LOC_C;
@@ -473,6 +489,7 @@ static Plan gen_plan(uint64_t runseed) {
   p.tasks.push_back(TaskPlan());
   if (O.engine == "mem") {
     p.locale = pick_locale(rp, false);
+    p.tasks[0].tloc = pick_tloc(runseed, 0, p.locale, false);
     cfg.alloc_faults = cfg.file_faults = O.batch == "hist_faults";
     cfg.min_ops = 1;
     cfg.max_ops = rp.chance(1, 3) ? std::min(8, O.max_ops) : O.max_ops;
@@ -481,6 +498,7 @@ static Plan gen_plan(uint64_t runseed) {
     gen_history(rp, cfg, p.tasks[0].ops, p.next_id);
   } else if (O.engine == "crystal") {
     p.locale = pick_locale(rp, false);
+    p.tasks[0].tloc = pick_tloc(runseed, 0, p.locale, false);
     cfg.crystal_focus = true;
     cfg.alloc_faults = cfg.file_faults = O.batch == "hist_faults";
     cfg.max_ops = rp.chance(1, 3) ? std::min(10, O.max_ops) : O.max_ops;
@@ -493,6 +511,7 @@ static Plan gen_plan(uint64_t runseed) {
     }
   } else if (O.engine == "purity") {
     p.locale = pick_locale(rp, true);
+    p.tasks[0].tloc = pick_tloc(runseed, 0, p.locale, true);
     auto& ops = p.tasks[0].ops;
     if (O.batch == "long") {
       // thousands of calls of one to three functions in one process, with arguments that repeat: state that only
@@ -570,6 +589,7 @@ static Plan gen_plan(uint64_t runseed) {
       size_t skip = ops.size();
       gen_history(rp, cfg, ops, p.next_id);
       tp.ops.assign(ops.begin() + skip, ops.end());
+      tp.tloc = pick_tloc(runseed, t, p.locale, true);
       p.tasks.push_back(tp);
     }
     int sc = rs.range(0, 99);
@@ -589,20 +609,33 @@ static Plan gen_plan(uint64_t runseed) {
 static std::unordered_map<std::string, OpResult> g_first_cache;   // purity: first-call-in-fresh-process results
 static uint64_t g_first_runs = 0;
 
-static std::string probe_key(const Op& o, int locale) {
+// The locale a call sees is the calling thread's: a caller-installed thread locale (tloc) over process locale P is,
+// for the library, the same environment as the process configuration it is equal to -- so the references of the
+// `first` batch (tloc 0) serve.  -1: no process configuration equals it (the reference is then taken in the very
+// same environment, on demand).
+static int eff_locale(int locale, int tloc) {
+  if (tloc == TLOC_NONE || tloc == TLOC_DUP) return locale;
+  if (tloc == TLOC_XX) return locale == LOC_C || locale == LOC_XX ? LOC_XX : -1;
+  if (tloc == TLOC_C) return locale == LOC_XX ? LOC_C : locale;
+  return -1;
+}
+static std::string probe_key(const Op& o, int locale, int tloc = 0) {
   Op q = o;
   q.id = 0;
-  char b[16];
-  snprintf(b, sizeof b, "L%d ", locale);
+  char b[24];
+  int e = eff_locale(locale, tloc);
+  if (e >= 0) snprintf(b, sizeof b, "L%d ", e); else snprintf(b, sizeof b, "L%dT%d ", locale, tloc);
   return b + op_to_text(q);
 }
 
 static bool nontrivial_plan(const Plan& p, const Outcome& o);
 
-static OpResult first_call(const Op& op, int locale, uint64_t seed) {
+static OpResult first_call(const Op& op, int locale, uint64_t seed, int tloc = 0) {
   Plan single;
-  single.engine = "purity"; single.batch = "first"; single.seed = seed; single.runseed = 0; single.locale = locale;
+  int e = eff_locale(locale, tloc);
+  single.engine = "purity"; single.batch = "first"; single.seed = seed; single.runseed = 0; single.locale = e >= 0 ? e : locale;
   single.tasks.push_back(TaskPlan());
+  if (e < 0) single.tasks[0].tloc = tloc;
   Op q = op; q.id = 1;
   single.tasks[0].ops.push_back(q);
   Outcome f = run_forked(single);
@@ -618,9 +651,9 @@ static Outcome evaluate(const Plan& p, bool count = true, bool keep_log = false)
     // oracle 1: every probe's result equals its first-call-in-a-fresh-process result
     for (auto& op : p.tasks[0].ops) {
       if (!op.probe) continue;
-      std::string key = probe_key(op, p.locale);
+      std::string key = probe_key(op, p.locale, p.tasks[0].tloc);
       if (g_first_cache.count(key)) continue;
-      g_first_cache[key] = first_call(op, p.locale, p.seed);
+      g_first_cache[key] = first_call(op, p.locale, p.seed, p.tasks[0].tloc);
     }
     Outcome o = run_forked(p, keep_log);
     if (count) accumulate_counters();
@@ -629,7 +662,7 @@ static Outcome evaluate(const Plan& p, bool count = true, bool keep_log = false)
       if (pos >= o.res[0].size()) break;
       const OpResult& got = o.res[0][pos++];
       if (!op.probe || !got.done) continue;
-      const OpResult& want = g_first_cache[probe_key(op, p.locale)];
+      const OpResult& want = g_first_cache[probe_key(op, p.locale, p.tasks[0].tloc)];
       if (!want.done) continue;
       if (got.digest != want.digest || got.failed != want.failed) {
         Sig s;
@@ -850,6 +883,10 @@ static Plan minimise(const Plan& orig, const std::string& key, int budget) {
   for (auto& t : p.tasks)
     for (auto& o : t.ops) simplify_op(p, o, key, budget);
   for (auto& o : p.setup) simplify_op(p, o, key, budget);
+  // environment: the caller's thread locale and the allocator reuse mode only stay if the violation needs them
+  for (size_t t = 0; t < p.tasks.size() && g_shrink_runs < budget; t++)
+    if (p.tasks[t].tloc) { Plan q = p; q.tasks[t].tloc = 0; if (still_fails(q, key)) p = q; }
+  if (p.reuse && g_shrink_runs < budget) { Plan q = p; q.reuse = 0; if (still_fails(q, key)) p = q; }
   return p;
 }
 
@@ -942,6 +979,7 @@ static void one_run(const Plan& p, long index) {
   Outcome o = evaluate(p);
   TT.runs++;
   TT.runs_by_locale[p.locale % 3]++;
+  for (auto& t : p.tasks) if (t.tloc) { TT.runs_caller_tloc++; break; }
   if (nontrivial_plan(p, o)) TT.nontrivial.insert(plan_hash(p));
   if (index >= 0 && index < O.gate_n) {
     Outcome o2 = evaluate(p, false);
@@ -1210,7 +1248,7 @@ int main(int argc, char** argv) {
     kv("oom_unhandled", TT.oom_unhandled); kv("oom_swallowed", TT.oom_swallowed); kv("watchdog", TT.watchdog); kv("internal", TT.internal);
     kv("first_call_runs", g_first_runs); kv("unmodelled_sync", TT.unmodelled_sync); kv("edges_total", g_cov_n ? g_cov_n - 1 : 0); kv("edges_covered", cov);
     kv("nontrivial", TT.nontrivial.size()); kv("sched_hashes", TT.sched_hashes.size());
-    kv("runs_locale_C", TT.runs_by_locale[0]); kv("runs_locale_Cutf8", TT.runs_by_locale[1]); kv("runs_locale_xx", TT.runs_by_locale[2]);
+    kv("runs_locale_C", TT.runs_by_locale[0]); kv("runs_locale_Cutf8", TT.runs_by_locale[1]); kv("runs_locale_xx", TT.runs_by_locale[2]); kv("runs_caller_thread_locale", TT.runs_caller_tloc);
     snprintf(b, sizeof b, ",\"wall_s\":%.3f", wall); s += b;
     s += ",\"faults\":{";
     for (int i = 0; i < FK_N; i++) { snprintf(b, sizeof b, "%s\"%s\":%llu", i ? "," : "", kFaultNames[i], (unsigned long long)TT.faults[i]); s += b; }
